@@ -1054,15 +1054,15 @@ Proof.
   - split; [split; [discriminate|repeat constructor; discriminate]|]. split; [intros _; exact I|]. split; [discriminate|exact I].
 Qed.
 
-(* non-vacuity of the added constructs: <?xml><!-x></1><script>a<b</script><plaintext></p> *)
+(* non-vacuity of the added constructs: <?xml><!doctyp></1><script>a<b</script><plaintext></p> *)
 Example html_wellformed_nonvacuous2 :
   let doc := [ IBogus 63 [120; 109; 108];
-               IBogus 33 [45; 120];
+               IBogus 33 [100; 111; 99; 116; 121; 112];
                IBogus 47 [49];
                IRaw [115; 99; 114; 105; 112; 116] [] [] [97; 60; 98] [115; 99; 114; 105; 112; 116] [];
                IPlain [112; 108; 97; 105; 110; 116; 101; 120; 116] [] [] [60; 47; 112; 62] ] in
   wf_doc doc /\
-  doc_bytes doc = [60;63;120;109;108;62; 60;33;45;120;62; 60;47;49;62;
+  doc_bytes doc = [60;63;120;109;108;62; 60;33;100;111;99;116;121;112;62; 60;47;49;62;
                    60;115;99;114;105;112;116;62;97;60;98;60;47;115;99;114;105;112;116;62;
                    60;112;108;97;105;110;116;101;120;116;62;60;47;112;62] /\
   length (doc_obs doc) = 10%nat.
@@ -1072,7 +1072,7 @@ Proof.
   { split; [left; reflexivity|repeat constructor; discriminate]. }
   split; [|split; [discriminate|split; [discriminate|]]].
   { split; [|repeat constructor; discriminate]. right; left. split; [reflexivity|]. split; [reflexivity|]. split; [reflexivity|].
-    right. exists 45, [120]. split; [reflexivity|]. lia. }
+    reflexivity. }
   split; [|split; [discriminate|split; [discriminate|]]].
   { split; [|repeat constructor; discriminate]. right; right. split; [reflexivity|]. exists 49, []. split; reflexivity. }
   split; [|split; [discriminate|split; [discriminate|]]].
